@@ -56,6 +56,7 @@ THEOREMS = [
     "Nix.C20.idInv_after_copy",
     "Nix.C20.independent_history",
     "Nix.C20.independent_history_observed",
+    "Nix.C20.ids_disjoint_after_history",
     "Nix.C20.sourceSideInv_after_copy",
     "Nix.C20.idInv_source_side",
     "Nix.C20.independent_history_source_side",
@@ -64,10 +65,9 @@ THEOREMS = [
     "Nix.C20.reachable_entity_has_id",
     "Nix.C20.independent_delete_old_side",
     "Nix.C20.independent_delete_new_side",
-    "Nix.C20.independent_delete_partial",
-    "Nix.C20.independent_delete_counterexample",
-    "Nix.C20.repaired_delete_old_side",
-    "Nix.C20.repaired_delete_new_side",
+    "Nix.C20.independent_delete_full",
+    "Nix.C20.source_delete_keys_old",
+    "Nix.C20.independent_delete_counterexample_before_fix",
 ]
 ASSUMPTIONS = [
     "HDF5's object copy (H5Ocopy through h5py.Group.copy: everything reachable by hard links duplicated once, links "
@@ -78,9 +78,10 @@ ASSUMPTIONS = [
     "uuid4 ids are drawn from an abstract fresh supply (disjoint supplies for the two files)",
     "(T) harness/extract/copyshape.py accepts only the statement forms listed in its docstring (anything else: broken "
     "tie); `grp.copy(source=…, dest=…, name=…, shallow=…)` is h5py's Group.copy, read as the modelled object copy",
-    "the error class of a refused append / del / membership test with a Feature *object* as key is compared as "
-    "'refused' only (a Feature whose data is gone raises RuntimeError from its __str__ inside util.is_uuid, the shared "
-    "model says TypeError; the file is unchanged either way)",
+    "the error class of a refused append / del / membership test with a Feature *object* as key, and of a refused role "
+    "assignment (x.metadata = <Feature> …), is compared as 'refused' only (a Feature whose data is gone raises "
+    "RuntimeError from its __str__ inside util.is_uuid / while the TypeError message is formatted, the shared model "
+    "says TypeError; the file is unchanged either way)",
 ]
 TRUSTED_EXTRA = [
     "harness/lib/storeimpl2.py + storegen2.py + storeimpl.py (two-file protocol, path addressing by iteration, "
@@ -96,9 +97,9 @@ MANIFEST = {
                   "distinct (groups and datasets alike), the supplied name is used, an existing name is refused, every "
                   "old node is unchanged except for the one new link in the destination container, the final state of a "
                   "shallow section copy (properties re-added in order), and independence for every history of API calls "
-                  "made on the copy's side or on the source's side (one frame theorem for histories on a link-closed "
-                  "side; invariants SideInv / IdInv) - for every source graph, source node, "
-                  "destination file, both id policies, same-file and cross-file. Tied to the code (a) by an ast "
+                  "made on the copy's side or on the source's side, entity deletions (delete_all by object, file-wide) "
+                  "included (one frame theorem for histories on a link-closed side; invariant SideInv) - for every "
+                  "source graph, source node, destination file, both id policies, same-file and cross-file. Tied to the code (a) by an ast "
                   "translator that renders H5Group.copy (rename, id regeneration, guards of the id visitor) and the "
                   "eight copy entry points as data, with theorems that the interpretation of the generated shapes is the "
                   "model for all arguments (an edited guard / flag breaks lake build on a named theorem), and (b) by "
@@ -108,17 +109,18 @@ MANIFEST = {
                   "correspondence harness; H5Ocopy semantics are modelled, not verified; dataset contents are checked by "
                   "the implementation-side oracle only. Partial: with regenerated ids the link lists of the copy keep the "
                   "source's ids as entry names (open finding C20-fresh-ids-stale-link-names: id_named_links_kept + "
-                  "counterexample); deletion is global by entity_id (open finding shared "
-                  "with C04; repair proposed in reports/C20-delete-by-object.*); history-level independence is proved "
+                  "counterexample); history-level independence is proved "
                   "for histories of calls on either side whose entity arguments lie on that side (source side: destination "
-                  "container outside the source sub-graph).",
+                  "container outside the source sub-graph). Deletion: delete_all unlinks the given objects (repaired in "
+                  "/repo, fixed finding C20-delete-hits-same-id-copy shared with C04; the statement about the old "
+                  "deletion by entity_id is kept as independent_delete_counterexample_before_fix).",
     "technique": "Lean 4 model + theorems (graph isomorphism, invariants over histories), ast translator to generated "
                  "shape definitions, differential correspondence, implementation-side property oracle",
 }
 
-KNOWN_CLASS = "delete-hits-same-id-copy"
+FIXED_DELETE = "delete-hits-same-id-copy"      # repaired in /repo (status "fixed"): a failure at this site is a VIOLATION
 KNOWN_STALE = "fresh-ids-stale-link-names"
-KNOWN_SITES = (KNOWN_CLASS, KNOWN_STALE)
+KNOWN_SITES = (KNOWN_STALE,)
 
 
 def extract(repo):
@@ -186,7 +188,7 @@ class Gen20(storegen2.Gen2):
     def __init__(self, rng, impl, profile="mixed"):
         super().__init__(rng, impl, profile)
         self.stats = {"copy_ok": 0, "copy_refused": 0, "near_mutations": 0, "same_file": 0, "cross_file": 0,
-                      "keep": 0, "fresh": 0, "shallow": 0, "kinds": {}}
+                      "keep": 0, "fresh": 0, "shallow": 0, "kinds": {}, "deletes_after_copy": {}}
 
     def frames(self, fi):
         keep = self.impl.cur
@@ -233,6 +235,28 @@ class Gen20(storegen2.Gen2):
                     self.role(sub)
             except (AttributeError, TypeError, IndexError, ValueError):
                 del self.ops[n0:], self.outs[n0:]
+
+    def delete_near(self, fi, prefix, label):
+        """`del container[x]` (delete_all, file-wide) of the entity at `prefix` itself or of an entity below it - made
+        right after a copy, on the source or on the copy: after an id-keeping copy within one file the other side
+        carries the same ids, and must stay (deletion is by object)"""
+        rng = self.rng
+        self.use(fi)
+        sub = self.under(fi, prefix)
+        top = [e for e in sub if e.path == prefix]
+        if top and rng.random() < 0.5:
+            sub = top
+        if not sub:
+            return
+        n0 = len(self.ops)
+        try:
+            self.delete(sub)
+        except (AttributeError, TypeError, IndexError, ValueError):
+            del self.ops[n0:], self.outs[n0:]
+            return
+        if any(op[0] == "del" and "ok" in out for op, out in zip(self.ops[n0:], self.outs[n0:])):
+            d = self.stats["deletes_after_copy"]
+            d[label] = d.get(label, 0) + 1
 
     def copy_step(self):
         rng = self.rng
@@ -352,6 +376,14 @@ class Gen20(storegen2.Gen2):
                 else:
                     self.mutate_near(sf, src.path)        # … or the source
             self.dump_both()
+            if rng.random() < (0.7 if (keep and sf == df) else 0.3):
+                # then delete on one side (the entity itself or something below it), whole-file dumps of both files after
+                label = "%s/%s/" % ("same" if sf == df else "cross", "keep" if keep else "fresh")
+                if rng.random() < 0.5:
+                    self.delete_near(sf, src.path, label + "source")
+                else:
+                    self.delete_near(df, cpath, label + "copy")
+                self.dump_both()
         return True
 
 
@@ -409,7 +441,10 @@ def canon_dump(nodes):
 
 
 def feature_object_key(op):
-    """`append` / `del` / `has` / `get` with a Feature *object* as the key"""
+    """`append` / `del` / `has` / `get` with a Feature *object* as the key, or a role link (`x.metadata = …`, …) set to a
+    Feature object (a path through a `features` container ends at a Feature)"""
+    if op[0] == "set_role":
+        return len(op) > 3 and isinstance(op[3], list) and "features" in op[3]
     return (op[0] in ("append", "del", "has", "get") and len(op) > 3 and isinstance(op[3], dict) and "o" in op[3]
             and "features" in op[3]["o"])
 
@@ -423,9 +458,10 @@ def canon_outs(ops, outs):
             except Exception:
                 pass
         elif "err" in o and feature_object_key(op):
-            # a Feature object where an entity / a key is expected is refused on both sides; the class of the error is
-            # TypeError except for a Feature whose data was deleted (Feature.__str__, called by util.is_uuid, raises
-            # RuntimeError; the shared model says TypeError). Not this property's subject: compared as refused.
+            # a Feature object where an entity / a key / a Section is expected is refused on both sides; the class of the
+            # error is TypeError except for a Feature whose data was deleted (Feature.__str__, called by util.is_uuid and
+            # by the formatting of the TypeError message of the role setters, raises RuntimeError; the shared model says
+            # TypeError). Not this property's subject: compared as refused.
             o = {"err": "refused"}
         res.append(o)
     return res
@@ -494,7 +530,9 @@ def correspondence(ctx):
                     "shallow, into the file or a section) and properties, same-file and cross-file, ids kept or "
                     "regenerated, with/without a new name (plain, non-ASCII, UUID-looking, existing names); every access "
                     "path of the destination container queried after a copy; HDF5-level dumps of both files compared "
-                    "after every copy; then 1-3 mutations directed at the copy or at the source, and both dumps again. "
+                    "after every copy; then 1-3 mutations directed at the copy or at the source, and both dumps again; "
+                    "then (70% after an id-keeping same-file copy, else 30%) `del container[x]` of the source / the copy "
+                    "itself or of an entity below it, and both dumps again (distribution.copies.deletes_after_copy). "
                     "non-trivial = distinct op (canonical JSON) whose result is an error or a non-empty value",
             "samples": samples, "distribution": {"ops": dist, "impl_errors": errs, "copies": stats},
             "disagreements": disagreements, "exhaustive": False}
@@ -789,7 +827,7 @@ def populate(f, rng, tag):
 
 
 def candidates(f):
-    """copyable entities of an open file, by kind: (entity, owning block or None)"""
+    """copyable entities of an open file, by kind: (entity, owner: block / section / parent section or None)"""
     out = {k: [] for k in ("block", "data_array", "data_frame", "tag", "multi_tag", "section", "property")}
     for b in f.blocks:
         out["block"].append((b, None))
@@ -802,13 +840,13 @@ def candidates(f):
         for m in b.multi_tags:
             out["multi_tag"].append((m, b))
 
-    def secs(owner):
+    def secs(owner, parent):
         for s in owner.sections:
-            out["section"].append((s, None))
+            out["section"].append((s, parent))        # parent section, None for a root section
             for p in s.props:
                 out["property"].append((p, s))
-            secs(s)
-    secs(f)
+            secs(s, s)
+    secs(f, None)
     return out
 
 
@@ -1350,9 +1388,9 @@ class Scenario:
                 return
             if dels and rng.random() < 0.6:
                 desc, fn, dids = rng.choice(dels)
-                # delete_all removes every link to every object of the file that carries one of these ids: when an
-                # earlier id-keeping copy left a second object with such an id anywhere in the file (on the other
-                # side, or above it), its disappearance is the open finding `delete-hits-same-id-copy`
+                # delete_all removes every link, file-wide, to the deleted *objects*; an earlier id-keeping copy may
+                # have left other objects with the same ids anywhere in the file (on the other side, or above it):
+                # they are other objects and must stay
                 shared = set(dids) & dup_ids(mfile)
                 try:
                     fn()
@@ -1360,17 +1398,67 @@ class Scenario:
                     continue
                 self.log.append(["mutate", mname, [desc]])
                 self.evals += 1
-                self.count("delete/" + ("same" if sf == df else "cross") + "/" + ("keep" if keep else "fresh"))
+                self.count("delete/" + ("same" if sf == df else "cross") + "/" + ("keep" if keep else "fresh") +
+                           ("/shared-id" if shared else ""))
                 after = side_state(kind, oent)
                 if after != before:
                     d = first_diff(before["h5"], after["h5"]) or W.diff(before["api"], after["api"], 3)
-                    if sf == df and shared:
-                        self.fail("deleting an entity of the %s removed the same-id object of the %s "
-                                  "(deletion is global by entity_id)" % (mname, oname), d, "unchanged", KNOWN_CLASS)
-                    else:
-                        self.fail("a deletion in the %s is visible in the %s" % (mname, oname), d, "unchanged",
-                                  "independence")
+                    self.fail("a deletion in the %s is visible in the %s%s" % (
+                        mname, oname, " (the deleted entity's id is carried by another object of the file)"
+                        if shared else ""), d, "unchanged", FIXED_DELETE if shared else "independence")
                     return
+        # ---- the source (or the copy) itself is deleted: the other one stays, exactly as it was ----------------
+        if rng.random() < 0.35:
+            mi = rng.choice([0, 1])
+            mname, ment, mown, mfile = sides[mi]
+            oname, oent, oown, ofile = sides[1 - mi]
+            if kind == "block" and len(mfile.blocks) < 2:
+                return                      # keep something to copy for the following trials
+            cont = dest_container(kind, parent) if mi == 1 else self.container_of(kind, src, src_owner, mfile)
+            if cont is None:
+                return
+            before = side_state(kind, oent)
+            ocont = self.container_of(kind, src, src_owner, ofile) if mi == 1 else dest_container(kind, parent)
+            oname_in = oent.name
+            try:
+                cont.__delitem__(ment if rng.random() < 0.5 else ment.name)
+            except Exception as e:
+                self.fail("deleting the %s of a copy raised %s: %s" % (mname, type(e).__name__, str(e)[:100]),
+                          type(e).__name__, "deleted", "independence")
+                return
+            self.log.append(["delete", mname])
+            self.evals += 1
+            self.count("delete-whole/" + mname + "/" + ("same" if sf == df else "cross") + "/" +
+                       ("keep" if keep else "fresh"))
+            site = FIXED_DELETE if (sf == df and keep) else "independence"
+            try:
+                present = ocont is None or oname_in in [x.name for x in ocont]
+            except Exception:
+                present = False
+            if not present:
+                self.fail("deleting the %s removed the %s from its container" % (mname, oname),
+                          "gone", "still there", site)
+                return
+            try:
+                after = side_state(kind, oent)
+            except Exception as e:
+                self.fail("after deleting the %s the %s can no longer be read (%s)" % (mname, oname, type(e).__name__),
+                          type(e).__name__, "unchanged", site)
+                return
+            if after != before:
+                d = first_diff(before["h5"], after["h5"]) or W.diff(before["api"], after["api"], 3)
+                self.fail("deleting the %s changed the %s" % (mname, oname), d, "unchanged", site)
+
+    @staticmethod
+    def container_of(kind, ent, owner, f):
+        """the container that owns the source entity `ent`"""
+        if kind == "block":
+            return f.blocks
+        if kind in BLOCK_CONT:
+            return getattr(owner, BLOCK_CONT[kind])
+        if kind == "property":
+            return owner.props
+        return (owner if owner is not None else f).sections      # (Section.parent searches by id: not after id-keeping copies)
 
 
 # ---- regression cases for defects repaired in /repo (status "fixed" in known_findings.json) ---------
@@ -1490,29 +1578,103 @@ def fixed_cases(ctx):
     return fails
 
 
-def known_case(ctx):
-    """D13: deleting the original removes the id-keeping copy in the same file"""
-    path = ctx.tmpfile("c20-known.nix")
+def delete_by_object_cases(ctx):
+    """C20-delete-hits-same-id-copy (D13, repaired: `delete_all` unlinks the objects, it used to match entity_id):
+    after an id-keeping copy within one file, deleting on one side leaves the other side — in both directions, for
+    plain containers, the section subtree and the source subtree; every link to the deleted object itself still goes"""
+    fails = []
+    path = ctx.tmpfile("c20-delobj.nix")
     f = nixio.File.open(path, nixio.FileMode.Overwrite)
+
+    def bad(what, hist, obs, req):
+        fails.append(Failure(what, {"fixed_case": "C20-delete-hits-same-id-copy", "history": hist}, obs, req,
+                             FIXED_DELETE))
+
+    def names(c):
+        return [x.name for x in c]
+
     try:
         b = f.create_block("b", "t")
         a = b.create_data_array("a", "t", data=[1.0, 2.0])
+        # 1. the minimal case: the copy survives the deletion of the original
         b.create_data_array(name="a-copy", copy_from=a, keep_copy_id=True)
-        before = [x.name for x in b.data_arrays]
+        hist = [["create_data_array", "a"], ["copy", "a", "a-copy", {"keep_id": True}], ["del", "a"]]
         del b.data_arrays["a"]
-        after = [x.name for x in b.data_arrays]
-        if "a-copy" not in after:
-            return Failure("deleting an entity of the source removed the same-id object of the copy "
-                           "(deletion is global by entity_id)",
-                           {"history": [["create_data_array", "a"], ["copy", "a", "a-copy", {"keep_id": True}],
-                                        ["del", "a"]]}, after, [n for n in before if n != "a"], KNOWN_CLASS)
+        if names(b.data_arrays) != ["a-copy"]:
+            bad("deleting an entity of the source removed the same-id object of the copy "
+                "(deletion is global by entity_id)", hist, names(b.data_arrays), ["a-copy"])
+        # 2. the other direction: the original survives the deletion of the copy; links to the deleted object go
+        a = b.create_data_array("x", "t", data=[1.0])
+        t = b.create_tag("tg", "t", [0.0])
+        t.references.append(a)
+        g = b.create_group("g", "t")
+        g.data_arrays.append(a)
+        b.create_data_array(name="x2", copy_from=a, keep_copy_id=True)
+        hist = [["create_data_array", "x"], ["tg.references.append", "x"], ["g.data_arrays.append", "x"],
+                ["copy", "x", "x2", {"keep_id": True}], ["del", "x2"]]
+        del b.data_arrays["x2"]
+        got = [names(b.data_arrays), names(t.references), names(g.data_arrays)]
+        if got != [["a-copy", "x"], ["x"], ["x"]]:
+            bad("deleting the id-keeping copy removed the original (or its links)", hist, got,
+                [["a-copy", "x"], ["x"], ["x"]])
+        # 3. a block copy: deleting an array of the original block leaves the copied block complete, and the links
+        #    to the deleted array inside the original (tag reference, group member) are removed
+        b2 = f.create_block(name="b2", copy_from=b, keep_copy_id=True)
+        hist = [["copy", "b", "b2", {"keep_id": True}], ["del", "b/x"]]
+        del b.data_arrays["x"]
+        got = [names(b.data_arrays), names(t.references), names(g.data_arrays), names(b2.data_arrays),
+               names(b2.tags["tg"].references), names(b2.groups["g"].data_arrays)]
+        want = [["a-copy"], [], [], ["a-copy", "x"], ["x"], ["x"]]
+        if got != want:
+            bad("deleting an array of a block changed the id-keeping copy of the block (or left links to the deleted "
+                "array in the original)", hist, got, want)
+        # … and the other way round
+        del b2.data_arrays["a-copy"]
+        got = [names(b.data_arrays), names(b2.data_arrays)]
+        if got != [["a-copy"], ["x"]]:
+            bad("deleting an array of the copied block changed the original block", hist + [["del", "b2/a-copy"]], got,
+                [["a-copy"], ["x"]])
+        # 4. section subtree (SectionContainer.__delitem__ hands delete_all the whole subtree)
+        s = f.create_section("s", "t")
+        sub = s.create_section("sub", "t")
+        sub.create_section("deep", "t")
+        sub.create_property("p", [1])
+        b.metadata = sub
+        s2 = f.copy_section(s, name="s2", keep_id=True)
+        hist = [["create_section", "s/sub/deep"], ["b.metadata = s/sub"], ["copy_section", "s", "s2", {"keep_id": True}],
+                ["del", "f.sections['s']"]]
+        del f.sections["s"]
+        got = [names(f.sections), names(s2.sections), names(s2.sections["sub"].sections), names(s2.sections["sub"].props),
+               b.metadata is None]
+        want = [["s2"], ["sub"], ["deep"], ["p"], True]
+        if got != want:
+            bad("deleting a section changed its id-keeping copy (or left the metadata link to a deleted subsection)",
+                hist, got, want)
+        # 5. source subtree (SourceContainer.__delitem__: the subtree and the source)
+        src = b.create_source("src", "t")
+        src.create_source("deep", "t")
+        aa = b.data_arrays["a-copy"]
+        aa.sources.append(src)
+        b3 = f.create_block(name="b3", copy_from=b, keep_copy_id=True)
+        hist = [["create_source", "b/src/deep"], ["a-copy.sources.append", "src"], ["copy", "b", "b3", {"keep_id": True}],
+                ["del", "b3.sources['src']"]]
+        del b3.sources["src"]
+        got = [names(b.sources), names(b.sources["src"].sources), names(aa.sources), names(b3.sources),
+               names(b3.data_arrays["a-copy"].sources)]
+        want = [["src"], ["deep"], ["src"], [], []]
+        if got != want:
+            bad("deleting a source of the copied block changed the original block (or left links to the deleted "
+                "source in the copy)", hist, got, want)
+    except Exception as e:
+        bad("the regression case for deletion after an id-keeping copy raised %s: %s" % (type(e).__name__, str(e)[:120]),
+            [], type(e).__name__, "no exception")
     finally:
         f.close()
         try:
             os.remove(path)
         except OSError:
             pass
-    return None
+    return fails
 
 
 def known_case_stale(ctx):
@@ -1567,10 +1729,10 @@ def oracle(ctx, broken, hints):
             counts[kk] = counts.get(kk, 0) + v
         if len([f for f in failures if f.site not in KNOWN_SITES]) > 12:
             break
-    fx = fixed_cases(ctx)
-    failures += fx
-    evals += 12
-    for kc in (known_case, known_case_stale):
+    fx = fixed_cases(ctx) + delete_by_object_cases(ctx)
+    failures = fx + failures          # the minimal reproducers of repaired defects first (a regression prints that one)
+    evals += 18
+    for kc in (known_case_stale,):
         kf = kc(ctx)
         if kf is not None:
             failures.append(kf)
@@ -1587,8 +1749,6 @@ def matches_known(entry, failure):
 
 
 def reproduces(ctx, entry):
-    if entry.get("class") == KNOWN_CLASS:
-        return known_case(ctx) is not None
     if entry.get("class") == KNOWN_STALE:
         return known_case_stale(ctx) is not None
     return True
